@@ -105,7 +105,7 @@ class VC:
 
     def oblige(self, kind, goal, note='', expect='unsat', tags=()):
         goal = _z(goal)
-        if expect == 'unsat' and z3.is_true(goal):
+        if expect == 'unsat' and z3.is_true(goal) and not kind.startswith(('post', 'raises')):
             return
         o = Obligation(self.func, kind, list(self.pc), goal, note, self.path_id, expect, tags)
         n = self._kind_count.get(kind, 0)
